@@ -86,7 +86,14 @@ func main() {
 	addDir(filepath.Join(*verif, "sim/simkit"), filepath.Join(*repo, "verifsim/simkit"))
 	addDir(filepath.Join(*verif, "sim/simfs"), filepath.Join(*repo, "verifsim/simfs"))
 	hdir := filepath.Join(*repo, "verifsim/harness", *harness)
-	addDir(filepath.Join(*verif, "sim/harness", *harness), hdir)
+	hsrc := filepath.Join(*verif, "sim/harness", *harness)
+	_ = filepath.WalkDir(hsrc, func(path string, d os.DirEntry, err error) error {
+		if err == nil && d.IsDir() {
+			rel, _ := filepath.Rel(hsrc, path)
+			addDir(path, filepath.Join(hdir, rel))
+		}
+		return nil
+	})
 
 	var pkgs []string
 	for _, p := range strings.Split(*pkgsFlag, ",") {
@@ -134,7 +141,7 @@ func main() {
 	for _, p := range pkgs {
 		patterns = append(patterns, modPath+"/"+p)
 	}
-	patterns = append(patterns, modPath+"/verifsim/harness/"+*harness)
+	patterns = append(patterns, modPath+"/verifsim/harness/"+*harness+"/...")
 	var ext []string
 	for _, p := range strings.Split(*extPkgs, ",") {
 		if p = strings.TrimSpace(p); p != "" {
